@@ -65,6 +65,10 @@ class EFLRSetsDict(defaultdict):
             An EFLRSet instance of given subtype and name, registered in the structure.
         """
 
+        if set_name == '':
+            # an empty name is written as no name: keep one unnamed set per type
+            set_name = None
+
         # dict mapping set names on EFLRSet (subclass) instances
         eflr_set_dict: dict[Union[str, None], AnyEFLRSet] = self[eflr_set_type]
 
